@@ -12,7 +12,7 @@ def main(tier: str, seed: int) -> int:
             "multiset equality on voc(P) with costs. non-trivial = symmetry changed the program and the outcome varies")
     bounds = {"groups": len(list(fam.groups(tier))), "extras": len(fam.EXTRAS), "contexts": len(fam.CONTEXTS),
               "definitions": len(fam.PDEFS)}
-    return generic.family_main(PROP, tier, seed, fam.jobs(tier), rule, bounds)
+    return generic.family_main(PROP, tier, seed, generic.with_variants(fam.jobs(tier), tier), rule, dict(bounds, variants=True))
 
 
 def replay(path: str) -> int:
